@@ -144,17 +144,15 @@ func substituteBackendParams(template string, groups []string) string {
 		return template
 	}
 
-	result := template
-	// Replace $1, $2, etc. with captured groups
-	// We need to handle this carefully to avoid replacing $10 when we mean $1
-	// Process from highest index to lowest to avoid partial replacements
+	// Replace $1, $2, etc. with captured groups in a single pass over the template,
+	// so that a captured group that itself contains "$n" is never substituted again.
+	// We need to handle this carefully to avoid replacing $10 when we mean $1:
+	// list the highest index first, the replacer prefers earlier pairs.
+	oldnew := make([]string, 0, 2*len(groups))
 	for i := len(groups); i >= 1; i-- {
-		param := fmt.Sprintf("$%d", i)
-		if i-1 < len(groups) {
-			result = strings.ReplaceAll(result, param, groups[i-1])
-		}
+		oldnew = append(oldnew, fmt.Sprintf("$%d", i), groups[i-1])
 	}
-	return result
+	return strings.NewReplacer(oldnew...).Replace(template)
 }
 
 func findRoute(
